@@ -6,7 +6,7 @@ import AsynqModel.Lib.CacheFam
   (case cache <id> alru <maxsize> <default|const|sumParity|raw> <sig> <sig>..)   one <sig> per function decorated by the
   (case cache <id> perinst <sig> <sig>..)                                         ONE decorator object (function 0, 1, ..)
   (case cache <id> lazy <ttl> <t0>)
-  <sig> = ((args..) (defaults..) (kwonly..) ((name default)..))
+  <sig> = ((args..) (defaults..) (kwonly..) ((name default)..) [<varargs 0|1>])      (varargs: the function has *rest)
   (obs <op> <res> <runs> <extra>)
   <op>  = (call <inst> (args..) ((name value)..) <raises> <dur> <selfref> <fn>) | (drop <inst>) | (dirty <fn>) | (tick <d>)
           (<selfref> = the value the body returns refers to the instance; per-instance cases only, optional, default 0;
@@ -30,7 +30,11 @@ def pairs? : Sexp → Option (List (Nat × Nat))
 
 def sig? : Sexp → Option Sig
   | .list [a, d, k, kd] => do
-    some { args := (← a.natList?), defaults := (← d.natList?), kwonly := (← k.natList?), kwonlyDefaults := (← pairs? kd) }
+    some { args := (← a.natList?), defaults := (← d.natList?), kwonly := (← k.natList?), kwonlyDefaults := (← pairs? kd),
+           varargs := false }
+  | .list [a, d, k, kd, va] => do
+    some { args := (← a.natList?), defaults := (← d.natList?), kwonly := (← k.natList?), kwonlyDefaults := (← pairs? kd),
+           varargs := (← va.bool?) }
   | _ => none
 
 def keySpec? : Sexp → Option KeySpec
@@ -85,8 +89,8 @@ def clauseStr : Option Clause → String
   | none => "ok"
   | some c => "fail:" ++ c.name
 
-/-- `hyp` = does the case lie inside the hypotheses of the refinement theorem of its cache (C13_alru_refines / _keyfn,
-    C13_per_instance_refines_partial, C13_lazy_refines)?  If it does, SPECM=ok is what the theorem says.
+/-- `hyp` = does the case lie inside the hypotheses of the refinement theorem of its cache (C13_alru_refines /
+    C13_alru_refines_keyfn, C13_per_instance_refines_partial, C13_lazy_refines)?  If it does, SPECM=ok is what the theorem says.
     `na` = the case contains a call the property does not speak about (Python cannot bind it because it passes too many
     positional arguments or one parameter twice; ASSUMPTIONS of checks/c13.py, `C13_*_callOK_needed`): the observers are
     not evaluated, only the correspondence is. -/
@@ -102,7 +106,8 @@ def unparsable (id : Nat) : String := s!"R {id} CORR=diff SPEC=ok SPECM=ok | unp
 
 def sigAt (sigs : List Sig) (f : Nat) : Sig := sigs.getD f default
 
-/-- `hyp`: inside the hypotheses of C13_alru_shared_decorator_refines / _keyfn (with one function: C13_alru_refines / _keyfn) -/
+/-- `hyp`: inside the hypotheses of C13_alru_shared_decorator_refines / _keyfn (with one function:
+    C13_alru_refines / C13_alru_refines_keyfn) -/
 def handleAlru (id cap : Nat) (ks : KeySpec) (sigs : List Sig) (lines : List (WOp × Obs)) : String :=
   match lines.mapM (fun (l : WOp × Obs) => match l.1 with
       | .call _ c r _ _ f => some ({ fn := f, op := { c := c, raises := r } } : Alru.Fam.Op) | _ => none) with
@@ -116,7 +121,8 @@ def handleAlru (id cap : Nat) (ks : KeySpec) (sigs : List Sig) (lines : List (WO
     let sp := Alru.Fam.specClause rk bd cap ops impl
     let callsOK := ks != .default || ops.all fun o => alruCallOK (sigAt sigs o.fn) o.op.c
     let hyp := decide (1 ≤ cap) && callsOK
-    answer id model impl (clauseStr sp) (clauseStr (Alru.Fam.specClause rk bd cap ops model)) hyp (!callsOK)
+    let tag := ""
+    answer id model impl (clauseStr sp ++ tag) (clauseStr (Alru.Fam.specClause rk bd cap ops model)) hyp (!callsOK)
 
 /-- `hyp`: inside the hypotheses of C13_per_instance_shared_decorator_refines_partial -/
 def handlePerInst (id : Nat) (sigs : List Sig) (lines : List (WOp × Obs)) : String :=
